@@ -10,17 +10,25 @@ property presupposes: the kernel the dispatch table installs for pointer P is an
           (types), i.e. the table cannot pair a kernel with a reference of a different signature through a cast
   C07.D1c the C fallback of pointer P is the reference the SIMD levels are paired with: its name is P's name
           (modulo the svt_/aom_ prefixes) + `_c`, or the recorded exception
+  C07.SATSIGN  belief contradiction inside a kernel: the result of a *signed-saturating* 8/16-bit add or subtract
+          (_mm*_adds_epi16, _mm*_subs_epi8 ...) is later consumed by an operation that interprets the lanes as *unsigned*
+          (_mm*_cvtepu16_epi32, _mm_minpos_epu16, min/max/avg_epu16).  One of the two beliefs is wrong: either the value can
+          exceed the signed range (then it was clamped at 32767 / 127 and the C reference, which sums in int, differs) or the
+          unsigned consumer is pointless.  Zero instances today; a witness translation unit with the pattern must match on
+          every run so the rule cannot pass vacuously.  (The opposite direction, unsigned-saturating then signed max/min, is
+          the code base's absolute-difference idiom - 26 sites - and is not flagged.)
 """
 import re
 
-from engine.facts import pstr, strip, AnalysisBroken
+from engine.facts import pstr, strip, subexprs, callee_name, AnalysisBroken, Fn
+from engine import compdb
 from engine.rtcd import dispatch_entries
 
 PID = 'C07'
 
 META = {
-    'technique': 'dispatch-table reconstruction + agreement of the shape tokens (block size, bit depth) and of the resolved parameter-type lists between each pointer, its C reference and every installed kernel',
-    'text': 'Decides only the pairing that bit-exactness presupposes: each of the ~1600 installed kernels is an implementation of the operation (block size, bit depth, signature) of the slot it is installed in, and the slot\'s fallback is that operation\'s C reference. The arithmetic equality of kernel and reference over all arguments is NOT decided (that needs execution or symbolic equivalence, a different technique family).',
+    'technique': 'dispatch-table reconstruction + agreement of the shape tokens (block size, bit depth) and of the resolved parameter-type lists between each pointer, its C reference and every installed kernel; def-use contradiction lint over intrinsic calls (signed-saturating producer, unsigned consumer) with a compiled positive witness',
+    'text': 'Decides only the pairing that bit-exactness presupposes: each of the ~1600 installed kernels is an implementation of the operation (block size, bit depth, signature) of the slot it is installed in, and the slot\'s fallback is that operation\'s C reference. One arithmetic contradiction is decided kernel by kernel (a signed-saturating 8/16-bit sum consumed as unsigned). Beyond that, the arithmetic equality of kernel and reference over all arguments is NOT decided (that needs execution or symbolic equivalence, a different technique family).',
     'note': 'function and pointer names are the repository\'s declared interface for kernel shape (headers, tests and tables are generated from them); a difference is reported only when both sides carry a token of the same kind',
     'ref': 'DESIGN.md section 5 C07',
 }
@@ -113,6 +121,7 @@ def run(P, rep, tier):
         ok = fn.endswith('_c') or fn.endswith('_c_wrapper') or '_c_' in fn or not any(fn.endswith(s) for s in ('_sse2', '_ssse3', '_sse4_1', '_avx2', '_avx512', '_sse4', '_avx'))
         rep.ob('C07.D1c', 'fallback:' + ptr, ok, f.loc(ev), 'fallback of %s is %s' % (ptr, fn) + ('' if ok else ' - an ISA-suffixed function in the reference slot'))
     rep.floor('C07.D1c', 500)
+    run_satsign(P, rep)
 
 
 TYPEDEF_EQ = [{'uint8_t', 'unsignedchar', 'EbByte'}, {'int32_t', 'int'}, {'uint32_t', 'unsignedint', 'unsigned'}, {'int16_t', 'short'},
@@ -134,3 +143,88 @@ def _norm(t):
 def _same_modulo_typedefs(sigs):
     n = {tuple(_norm(t) for t in s) for s in sigs}
     return len(n) == 1
+
+
+SIGNED_SAT = re.compile(r'^_mm(256|512)?_(adds|subs)_epi(8|16)$')
+UNS_USE = re.compile(r'^_mm(256|512)?_(cvtepu(8|16)_epi(16|32|64)|minpos_epu16|min_epu(8|16)|max_epu(8|16)|avg_epu(8|16)|sad_epu8)$')
+WITNESS = """
+#include <immintrin.h>
+unsigned svtw_satsign(const unsigned char *a, const unsigned char *b) {
+    const __m128i z = _mm_setzero_si128();
+    const __m128i s0 = _mm_sad_epu8(_mm_loadu_si128((const __m128i *)a), _mm_loadu_si128((const __m128i *)b));
+    const __m128i s1 = _mm_sad_epu8(_mm_loadu_si128((const __m128i *)(a + 16)), _mm_loadu_si128((const __m128i *)(b + 16)));
+    const __m128i sum = _mm_adds_epi16(s0, s1);
+    const __m256i w = _mm256_cvtepu16_epi32(sum);
+    (void)z;
+    return (unsigned)_mm256_extract_epi32(w, 0);
+}
+"""
+
+
+def satsign_sites(fns):
+    out = []
+    for f in fns:
+        if f.nocfg:
+            continue
+        prod = {}
+        for ev in f.events(('decl', 'st')):
+            e = ev.get('e')
+            if e is None:
+                continue
+            name, rhs = (ev['n'], e) if ev['k'] == 'decl' else ((strip(e[2])[1], e[3]) if e[0] == 'a' and e[1] == '=' and strip(e[2])[0] == 'v' else (None, None))
+            if not name:
+                continue
+            r = strip(rhs)
+            if r and r[0] == 'c' and SIGNED_SAT.match(callee_name(r) or ''):
+                prod.setdefault(name, []).append((callee_name(r), ev))
+        if not prod:
+            continue
+        # a later plain redefinition of the variable by another operation ends the belief: keep it simple and sound for
+        # reporting - only variables whose every definition is a signed-saturating result are tracked
+        defs = {}
+        for ev in f.events(('decl', 'st')):
+            e = ev.get('e')
+            name = ev['n'] if ev['k'] == 'decl' else (strip(e[2])[1] if e is not None and e[0] == 'a' and strip(e[2])[0] == 'v' else None)
+            if name in prod:
+                defs[name] = defs.get(name, 0) + 1
+        for ev in f.events(('decl', 'st', 'call', 'ret')):
+            e = ev.get('e')
+            if e is None:
+                continue
+            for x in subexprs(e):
+                if x[0] != 'c':
+                    continue
+                cn = callee_name(x) or ''
+                if not UNS_USE.match(cn):
+                    continue
+                for a in x[2]:
+                    a = strip(a)
+                    if a and a[0] == 'v' and a[1] in prod and defs.get(a[1]) == len(prod[a[1]]):
+                        out.append((f, ev, a[1], prod[a[1]][0][0], cn))
+                    elif a and a[0] == 'c' and SIGNED_SAT.match(callee_name(a) or ''):
+                        out.append((f, ev, pstr(a)[:30], callee_name(a), cn))
+    seen, uniq = set(), []
+    for t in out:
+        k = (t[0].name, t[1].get('l'), t[2], t[4])
+        if k not in seen:
+            seen.add(k); uniq.append(t)
+    return uniq
+
+
+def run_satsign(P, rep):
+    d = compdb.extract_witness('c07_satsign', WITNESS, 'ASM_AVX2/EbComputeSAD_Intrinsic_AVX2.c')
+    wf = [Fn(fd, d['unit'], 'witness', '') for fd in d['functions'] if fd.get('name') == 'svtw_satsign']
+    pos = satsign_sites(wf)
+    if len(pos) != 1:
+        raise AnalysisBroken('the positive witness of C07.SATSIGN matched %d times (expected 1): the lint is blind' % len(pos))
+    kernels = [f for f in P.fns if f.lib in ('Common', 'Encoder', 'Decoder') and not f.nocfg and f.sub.startswith('ASM_')]
+    if len(kernels) < 800:
+        raise AnalysisBroken('only %d SIMD-unit functions analysed' % len(kernels))
+    nprod = sum(1 for f in kernels for ev in f.events(('decl', 'st')) if ev.get('e') is not None and any(x[0] == 'c' and SIGNED_SAT.match(callee_name(x) or '') for x in subexprs(ev['e'])))
+    sites = satsign_sites(kernels)
+    rep.analysed['satsign'] = {'simd_functions': len(kernels), 'signed_saturating_results': nprod, 'positive_witness_matches': len(pos)}
+    for f, ev, var, pc, uc in sites:
+        rep.ob('C07.SATSIGN', '%s/%s->%s' % (f.name, pc, uc), False, f.loc(ev),
+               '%s holds the result of %s (clamped to the signed range) and is consumed by %s as unsigned: for sums above the signed maximum the kernel returns the clamp while the C reference returns the sum' % (var, pc, uc))
+    rep.ob('C07.SATSIGN', 'all-kernels', not sites, 'Source/Lib', '%d signed-saturating 8/16-bit results in %d SIMD-unit functions; none is consumed as unsigned (witness pattern matched: rule is live)' % (nprod, len(kernels)))
+    rep.floor('C07.SATSIGN', 1)
